@@ -1,10 +1,53 @@
 import StepupModel.Proto
-/-! Driver requests of C20 (`c20 <op> ...`). -/
+import StepupModel.P.Path
+/-! Driver requests of C20 (`c20 <op> ...`).  Strings travel as hex, `~` is an unset variable. -/
 open StepupModel StepupModel.Proto
 
 namespace StepupModel.Drv.C20
+open StepupModel.P.Path
+
+def str (tok : String) : Option Str := (unhex tok).map cps
+def out (s : Str) : String := hex (ofCps s)
+
+def optStr (tok : String) : Option (Option Str) :=
+  if tok = "~" then some none else (str tok).map some
+
+def exc : Except Nat Str → String
+  | .ok s => "ok " ++ out s
+  | .error n => s!"err {n}"
 
 def handle : List String → Option String
+  | ["normpath", s] => do pure (out (normpath (← str s)))
+  | ["join", a, b] => do pure (out (join (← str a) (← str b)))
+  | ["isabs", s] => do pure (boolStr (isabs (← str s)))
+  | ["split", s] => do pure (hexList ((splitSlash (← str s)).map ofCps))
+  | ["abspath", cwd, s] => do pure (out (abspath (← str cwd) (← str s)))
+  | ["osrelpath", cwd, p, start] => do
+    pure (match osRelpath (← str cwd) (← str p) (← str start) with
+      | some r => "ok " ++ out r
+      | none => "err")
+  | ["relpath", cwd, p, start] => do pure (out (relpathTo (← str cwd) (← str start) (← str p)))
+  | ["dirname", s] => do pure (out (dirname (← str s)))
+  | ["parent", s] => do pure (out (parentDir (← str s)))
+  | ["affixes", s] => do
+    let a := getAffixes (← str s)
+    pure (out a.1 ++ " " ++ out a.2)
+  | ["apply", p, l, t] => do pure (exc (applyAffixes (← str p) (← str l) (← str t)))
+  | ["keepnorm", p] => do pure (exc (keepAffixes normpath (← str p)))
+  | ["root", cwd, er] => do pure (out (getRoot (← str cwd) (← optStr er)))
+  | ["translate", cwd, er, eh, p, wd] => do
+    pure (out (translateEnv (← str cwd) (← optStr er) (← optStr eh) (← str p) (← str wd)))
+  | ["back", cwd, er, eh, p, wd] => do
+    pure (out (translateBackEnv (← str cwd) (← optStr er) (← optStr eh) (← str p) (← str wd)))
+  | ["keeptr", cwd, er, eh, p] => do
+    let cwd ← str cwd; let er ← optStr er; let eh ← optStr eh
+    pure (exc (keepAffixes (fun x => translateEnv cwd er eh x dot) (← str p)))
+  | ["keepback", cwd, er, eh, p] => do
+    let cwd ← str cwd; let er ← optStr er; let eh ← optStr eh
+    pure (exc (keepAffixes (fun x => translateBackEnv cwd er eh x dot) (← str p)))
+  | ["envvars", cwd, wd] => do
+    let cwd ← str cwd; let wd ← str wd
+    pure (out (envRootVar cwd wd) ++ " " ++ out (envHereVar cwd wd))
+  | ["resolve", base, p] => do pure (hexList ((resolve (← str base) (← str p)).map ofCps))
   | _ => none
-
 end StepupModel.Drv.C20
